@@ -23,6 +23,7 @@ import os
 import common
 import stackgen
 import c13walk
+import c13build
 from common import enc
 
 # ------------------------------------------------------------------ implementation driver (in a child)
@@ -146,6 +147,8 @@ def _impl_on_stack(spec):
             if val2 != val:
                 val = {"exc": "InconsistentUses", "msg": "uses(x,v) %r but with usesInfo %r" % (val2, val)}
         out["uses"][k] = val
+    # --- the consumers of the listing: the manifest of eups distrib and the command-line listing (c13build)
+    out.update(c13build.impl_extra(e, spec))
     return out
 
 
@@ -386,6 +389,23 @@ def oracle(spec, impl):
     return bad
 
 
+def all_oracle(spec, impl):
+    """oracle(...) plus the oracles of the consumers (manifest order, command-line listing)"""
+    bad = oracle(spec, impl)
+    g = ref_graph(spec)
+    reach = {a: reach_plus(g, a) for a in g}
+    for i, p in enumerate(c13build.roots_of(spec)):
+        root = (p["name"], p["version"])
+        key = "%s %s" % root
+        if key in impl.get("mani", {}):
+            bad += c13build.oracle_manifest(spec, g, reach, root, impl["mani"][key])
+        for var in c13build.variants_for(i):
+            cv = impl.get("cli", {}).get("%s|%s" % (key, var[0]))
+            if cv is not None:
+                bad += c13build.oracle_cli(spec, g, reach, root, var, cv, impl["topo" if var[1] or var[2] else "list"].get(key))
+    return bad
+
+
 def two_versions_in_closure(spec, root):
     """the closure of root (root included, stubs count) holds two products of one name: where the pinned tree
     went wrong (D16, repaired); kept for the input-distribution counters"""
@@ -458,6 +478,9 @@ def compare_one(ctx, spec, impl, model, indep_edges_ok=True):
     fails = oracle(spec, impl)
     for kind, focus, exp, obs, what in fails:
         ctx.fail(kind, dict(case, focus=focus), expected=exp, observed=obs, what=what)
+    if "extra" in model:
+        g1 = ref_graph(spec)
+        fails = fails + c13build.compare(ctx, spec, impl, model["extra"], g1, {a: reach_plus(g1, a) for a in g1})
     # bookkeeping
     g = ref_graph(spec, implicit=False)
     nontriv = len(spec["products"]) >= 3 and any(len(reach_plus(g, a)) >= 2 for a in g)
@@ -506,13 +529,15 @@ def run_specs(ctx, specs, nproc=None):
         if "child_error" in i:
             raise RuntimeError("implementation driver failed on a stack: %r" % (i["child_error"],))
         ls, meta = model_lines(s, i["edges"])
-        spans.append((len(lines), len(ls)))
-        lines += ls
-        metas.append(meta)
+        xs, xmeta = c13build.model_lines(s, enc_world(s, i["edges"]))
+        spans.append((len(lines), len(ls), len(xs)))
+        lines += ls + xs
+        metas.append((meta, xmeta))
     outs = ctx.model(lines)
     all_fails = []
-    for s, i, meta, (a, n) in zip(specs, impls, metas, spans):
+    for s, i, (meta, xmeta), (a, n, nx) in zip(specs, impls, metas, spans):
         m = model_decode(s, meta, outs[a:a + n])
+        m["extra"] = c13build.model_decode(xmeta, outs[a + n:a + n + nx], dec_nodes)
         all_fails.append(compare_one(ctx, s, i, m))
     return impls, all_fails
 
@@ -529,7 +554,7 @@ def shrink(ctx_seed_spec, kind, focus, budget=40):
         r = stackgen.run_parallel(impl_chunk, [s], nproc=1)[0]
         if "child_error" in r:
             return False
-        for k, f, _e, _o, _w in oracle(s, r):
+        for k, f, _e, _o, _w in all_oracle(s, r):
             if k == kind and f.get("root") == focus.get("root") and f.get("query") == focus.get("query"):
                 return True
         return False
@@ -588,6 +613,13 @@ def setup_ctx(ctx):
                 "product name and version mentioned uses(x[,v]); one evaluation = one such call compared with the model "
                 "as an exact ordered list of (name, version, optional, depth); a graph is non-trivial when it declares at "
                 "least 3 products and some product reaches at least 2; distinct = distinct graph.  "
+                "On the same stacks, for every declared product (harness/c13build.py; keys manifest/..., cli/...): "
+                "Distrib.createDependencies of a real eups.distrib tarball / eupspkg Distrib object (no server) - the ordered "
+                "(name, version, optional) of the manifest entries against the model's create_dependencies, and the install-loop "
+                "oracle on the real manifest; eups list --dependencies through eups.cmd.EupsCmd with stdout captured (--raw "
+                "--topological always, and two of: plain, indented, --depth N, --depth with > >= < == !=, --checkCycles with and "
+                "without --topological) - the parsed lines against the model's cli_lines, against the API listing, and the closure / "
+                "order / depth oracle on the printed lines.  "
                 "Second family (no fed edges; keys walk/...): text worlds - the same graph shapes respelled with dotted versions, "
                 "spread over one or two stacks (a product sometimes declared in both), products of a name declared under the "
                 "running flavor Linux64 or the fall-back flavor generic, tags current / beta per stack, table lines of the forms "
@@ -602,6 +634,11 @@ def setup_ctx(ctx):
         "first family only: resolved edges are an input of the model: the harness asks the real code what each table line denotes "
         "(Action.processArgs + Eups.findProductFromVRO, as Table.dependencies does) and checks the answer against its own "
         "resolution of the generated data (explicit version iff declared, bare name -> tag current)",
+        "build order: the second look-up of createDependencies (Eups.findProductFromVRO(name, version) of every listed product) is "
+        "modelled on the world of resolved edges (a listed version is found iff it is declared, a product listed without a "
+        "version is not found again); DefaultDistrib.updateDependencies (table file, distribution id, install directory of every "
+        "entry) is run and checked to have filled every entry, not modelled; the text format of eups list (name|version with "
+        "--raw, the indented columns without) is parsed by the harness",
         "modelled, not verified: iteration order of python sets of Products (unobservable: components and layers are compared "
         "as sets), python list.sort stability, Product equality/hash with one flavor",
         "extra comparison, not a premise of any claim: the model's component partition of every tested graph is also run "
@@ -613,6 +650,8 @@ def setup_ctx(ctx):
         "setupOptional(name [version]) (no -j, --external, unsetupRequired, version expressions, per-line tags)",
         "product names and versions are made of word characters (no '-' ':' and no version spelled None), as the string keys "
         "name-version / name:version of recursiveDict and Uses assume",
+        "createDependencies: the path through the EUPS database (option noeups off, no server, default Mapping); the arguments "
+        "recursive and exact are not consulted by the code on that path; eups list without -v (with -v every line is printed)",
         "the default product implicitProducts is not declared: every table ends with a silent optional dependency on it, "
         "which the model receives as an ordinary unresolved edge",
         "second family: a (name, version) is declared under one flavor, and with one table text when it is declared in two "
@@ -651,7 +690,7 @@ def run(ctx):
         small = shrink(f["input"]["spec"], f["kind"], f["input"]["focus"])
         if len(json.dumps(small)) < len(json.dumps(f["input"]["spec"])):
             r = stackgen.run_parallel(impl_chunk, [small], nproc=1)[0]
-            for k, fo, e, o, w in oracle(small, r):
+            for k, fo, e, o, w in all_oracle(small, r):
                 if k == f["kind"] and fo.get("root") == f["input"]["focus"].get("root") and \
                         fo.get("query") == f["input"]["focus"].get("query"):
                     ctx.fail(k, {"spec": small, "focus": fo, "shrunk": True}, expected=e, observed=o, what=w)
